@@ -64,6 +64,26 @@ type c05MReq struct {
 	XRealIP string      `json:"xrealip,omitempty"`
 	Remote  string      `json:"remote"`
 	Hdr     [][2]string `json:"hdr,omitempty"`
+	// Reload: before this request all three instances are reloaded with generation Gen
+	// of the spec (0 = the initial one, k = Gens[k-1]); a reload with the generation
+	// already in force is a reload with an identical spec.
+	Reload bool `json:"reload,omitempty"`
+	Gen    int  `json:"gen,omitempty"`
+}
+
+// c05MGenSpec is a later generation of the server spec: same rules (hosts, paths,
+// methods, backends, headers), other filters and/or another unrelated option.
+type c05MGenSpec struct {
+	Filter      *c05MFilter     `json:"filter,omitempty"`
+	RuleFilters []*c05MFilter   `json:"ruleFilters"`
+	PathFilters [][]*c05MFilter `json:"pathFilters"`
+	Opt         int             `json:"opt"` // maxConnections = 10240 + Opt when > 0
+}
+
+type c05MGenOrc struct {
+	Server *c05MFOrc     `json:"server,omitempty"`
+	Rules  []*c05MFOrc   `json:"rules"`
+	Paths  [][]*c05MFOrc `json:"paths"`
 }
 
 type c05MEntry struct {
@@ -80,13 +100,13 @@ type c05MFOrc struct {
 }
 
 type c05MReqOrc struct {
-	RealIP string     `json:"realip"`
-	IPOK   bool       `json:"ip_ok"`
-	Fam    int        `json:"fam"`
-	Val    string     `json:"val"`
-	Key    int        `json:"key"`
-	Hit    bool       `json:"hit"`
-	Host   []bool     `json:"host"` // per rule: muxRule.match
+	RealIP string      `json:"realip"`
+	IPOK   bool        `json:"ip_ok"`
+	Fam    int         `json:"fam"`
+	Val    string      `json:"val"`
+	Key    int         `json:"key"`
+	Hit    bool        `json:"hit"`
+	Host   []bool      `json:"host"` // per rule: muxRule.match
 	Bits   [][][3]bool `json:"bits"` // per rule, per path: matchPath, matchMethod, matchHeaders
 }
 
@@ -94,16 +114,18 @@ type c05MOrc struct {
 	Server *c05MFOrc     `json:"server,omitempty"`
 	Rules  []*c05MFOrc   `json:"rules"`
 	Paths  [][]*c05MFOrc `json:"paths"`
+	Gens   []c05MGenOrc  `json:"gens,omitempty"` // generations 1..
 	Reqs   []c05MReqOrc  `json:"reqs"`
 }
 
 type c05MIn struct {
-	Filter    *c05MFilter `json:"filter,omitempty"`
-	Rules     []c05MRule  `json:"rules"`
-	CacheSize int         `json:"cacheSize"`
-	Backends  []string    `json:"backends"` // names the MuxMapper knows
-	Reqs      []c05MReq   `json:"reqs"`
-	Orc       *c05MOrc    `json:"orc,omitempty"`
+	Filter    *c05MFilter   `json:"filter,omitempty"`
+	Rules     []c05MRule    `json:"rules"`
+	CacheSize int           `json:"cacheSize"`
+	Backends  []string      `json:"backends"` // names the MuxMapper knows
+	Gens      []c05MGenSpec `json:"gens,omitempty"`
+	Reqs      []c05MReq     `json:"reqs"`
+	Orc       *c05MOrc      `json:"orc,omitempty"`
 }
 
 type c05MOut struct {
@@ -169,19 +191,32 @@ func c05MFilterSpec(f *c05MFilter) interface{} {
 }
 
 // c05MSpec renders the server spec as JSON (a YAML subset).
-func c05MSpec(in *c05MIn, erase bool, cacheSize int) string {
+func c05MSpec(in *c05MIn, erase bool, cacheSize int, gen int) string {
 	srv := map[string]interface{}{
 		"kind": "HTTPServer", "name": "c05", "port": 10080, "keepAlive": true, "https": false,
 		"cacheSize": cacheSize,
 	}
-	if in.Filter != nil && !erase {
-		srv["ipFilter"] = c05MFilterSpec(in.Filter)
+	// filters of the generation
+	sf := in.Filter
+	rf := func(ri int) *c05MFilter { return in.Rules[ri].Filter }
+	pf := func(ri, pi int) *c05MFilter { return in.Rules[ri].Paths[pi].Filter }
+	if gen > 0 {
+		g := in.Gens[gen-1]
+		sf = g.Filter
+		rf = func(ri int) *c05MFilter { return g.RuleFilters[ri] }
+		pf = func(ri, pi int) *c05MFilter { return g.PathFilters[ri][pi] }
+		if g.Opt > 0 {
+			srv["maxConnections"] = 10240 + g.Opt
+		}
+	}
+	if sf != nil && !erase {
+		srv["ipFilter"] = c05MFilterSpec(sf)
 	}
 	rules := []interface{}{}
-	for _, r := range in.Rules {
+	for ri, r := range in.Rules {
 		rm := map[string]interface{}{}
-		if r.Filter != nil && !erase {
-			rm["ipFilter"] = c05MFilterSpec(r.Filter)
+		if rf(ri) != nil && !erase {
+			rm["ipFilter"] = c05MFilterSpec(rf(ri))
 		}
 		if r.Host != "" {
 			rm["host"] = r.Host
@@ -190,10 +225,10 @@ func c05MSpec(in *c05MIn, erase bool, cacheSize int) string {
 			rm["hostRegexp"] = r.HostRegexp
 		}
 		paths := []interface{}{}
-		for _, p := range r.Paths {
+		for pi, p := range r.Paths {
 			pm := map[string]interface{}{"backend": p.Backend}
-			if p.Filter != nil && !erase {
-				pm["ipFilter"] = c05MFilterSpec(p.Filter)
+			if pf(ri, pi) != nil && !erase {
+				pm["ipFilter"] = c05MFilterSpec(pf(ri, pi))
 			}
 			if p.Path != "" {
 				pm["path"] = p.Path
@@ -241,12 +276,24 @@ func (h *c05MHandler) Handle(ctx *context.Context) string {
 }
 
 type c05MServer struct {
-	m   *mux
-	log []string
+	m         *mux
+	mm        *contexttest.MockedMuxMapper
+	erase     bool
+	cacheSize int
+	log       []string
+}
+
+func (s *c05MServer) reloadTo(in *c05MIn, gen int) error {
+	superSpec, err := supervisor.NewSpec(c05MSpec(in, s.erase, s.cacheSize, gen))
+	if err != nil {
+		return err
+	}
+	s.m.reload(superSpec, s.mm)
+	return nil
 }
 
 func c05MNewServer(in *c05MIn, erase bool, cacheSize int) (*c05MServer, error) {
-	s := &c05MServer{}
+	s := &c05MServer{erase: erase, cacheSize: cacheSize}
 	known := map[string]bool{}
 	for _, b := range in.Backends {
 		known[b] = true
@@ -257,12 +304,11 @@ func c05MNewServer(in *c05MIn, erase bool, cacheSize int) (*c05MServer, error) {
 		}
 		return &c05MHandler{name: name, log: &s.log}, true
 	}}
-	superSpec, err := supervisor.NewSpec(c05MSpec(in, erase, cacheSize))
-	if err != nil {
+	s.mm = mm
+	s.m = newMux(httpstat.New(), httpstat.NewTopN(10), mm)
+	if err := s.reloadTo(in, 0); err != nil {
 		return nil, err
 	}
-	s.m = newMux(httpstat.New(), httpstat.NewTopN(10), mm)
-	s.m.reload(superSpec, mm)
 	return s, nil
 }
 
@@ -312,6 +358,18 @@ func c05MRun(in *c05MIn) (obs c05MObs) {
 		}
 		orc.Paths = append(orc.Paths, ps)
 	}
+	for _, g := range in.Gens {
+		go_ := c05MGenOrc{Server: c05MFilterOrc(g.Filter)}
+		for ri := range in.Rules {
+			go_.Rules = append(go_.Rules, c05MFilterOrc(g.RuleFilters[ri]))
+			ps := []*c05MFOrc{}
+			for pi := range in.Rules[ri].Paths {
+				ps = append(ps, c05MFilterOrc(g.PathFilters[ri][pi]))
+			}
+			go_.Paths = append(go_.Paths, ps)
+		}
+		orc.Gens = append(orc.Gens, go_)
+	}
 	in.Orc = orc
 	cs := in.CacheSize
 	if cs < 1 {
@@ -333,8 +391,16 @@ func c05MRun(in *c05MIn) (obs c05MObs) {
 		return
 	}
 	keys := map[string]int{}
-	inst := on.m.inst.Load().(*muxInstance)
 	for _, rq := range in.Reqs {
+		if rq.Reload {
+			for _, sv := range []*c05MServer{on, off, twin} {
+				if err := sv.reloadTo(in, rq.Gen); err != nil {
+					obs.Error = "spec rejected on reload: " + err.Error()
+					return
+				}
+			}
+		}
+		inst := on.m.inst.Load().(*muxInstance)
 		// oracles on a private copy of the request
 		preq, _ := httpprot.NewRequest(c05MStdReq(rq))
 		ro := c05MReqOrc{RealIP: preq.RealIP()}
@@ -515,6 +581,38 @@ func c05MGen(r *vfRand, adv bool) c05MIn {
 		in.Rules = append([]c05MRule{first}, in.Rules...)
 		in.Rules = append(in.Rules, last)
 	}
+	// later generations of the spec for reload steps: same rules; same filters with another
+	// unrelated option, or re-rolled filters
+	withReload := r.Chance(1, 2) || adv
+	if withReload {
+		ng := r.Range(0, 2)
+		for k := 1; k <= ng; k++ {
+			g := c05MGenSpec{Filter: in.Filter, Opt: k}
+			reroll := r.Chance(1, 2)
+			roll := func(f *c05MFilter) *c05MFilter {
+				if !reroll || r.Bool() {
+					return f
+				}
+				if r.Chance(1, 3) {
+					return nil
+				}
+				return c05MGenFilter(r, &pool)
+			}
+			g.Filter = roll(in.Filter)
+			for _, rule := range in.Rules {
+				g.RuleFilters = append(g.RuleFilters, roll(rule.Filter))
+				pfs := []*c05MFilter{}
+				for _, pth := range rule.Paths {
+					pfs = append(pfs, roll(pth.Filter))
+				}
+				g.PathFilters = append(g.PathFilters, pfs)
+			}
+			if r.Chance(1, 4) {
+				g.Opt = 0 // identical to what it was copied from, when nothing was re-rolled
+			}
+			in.Gens = append(in.Gens, g)
+		}
+	}
 	pool = append(pool, c05MOutside...)
 
 	// a small pool of (host, method, path) triples, most of them aimed at an entry
@@ -564,9 +662,25 @@ func c05MGen(r *vfRand, adv bool) c05MIn {
 	if adv {
 		nq = r.Range(8, 24)
 	}
+	curGen := 0
+	var used []triple
 	for k := 0; k < nq; k++ {
 		t := triples[r.Intn(len(triples))]
+		reload := withReload && k > 0 && r.Chance(1, 5)
+		if reload && r.Chance(2, 3) {
+			t = used[r.Intn(len(used))] // a key served (and possibly cached) before the reload
+		}
+		used = append(used, t)
 		rq := c05MReq{Host: t.host, Method: t.method, Path: t.path}
+		if reload {
+			rq.Reload = true
+			if r.Chance(1, 3) { // identical spec
+				rq.Gen = curGen
+			} else {
+				rq.Gen = r.Intn(len(in.Gens) + 1)
+			}
+			curGen = rq.Gen
+		}
 		ip := pool[r.Intn(len(pool))]
 		other := pool[r.Intn(len(pool))]
 		rq.Remote = "192.0.2.1:4000"
